@@ -191,8 +191,12 @@ def check(ctx):
         ctx.check(b[5:].lower() in verbs or b[5:6].lower() + b[6:] in verbs, "T6-verbs", B.methods[b], "%s is a listed verb" % b,
                   "builder method %s is unreachable: its verb is not in VerbList (dispatch refuses it as unknown)" % b)
     disp = B.own_method("dispatch")
-    txt = [n for n in ast.walk(disp) if isinstance(n, ast.Assign) and dotted(n.targets[0]) == "verbMethod"]
-    ctx.check(bool(txt) and src(txt[0].value).replace(" ", "") == "'build'+verb.capitalize()", "T6-verbs", disp,
+    # the method looked up is named 'build' + verb.capitalize(), wherever the name expression is spelled (a local, or inline
+    # in hasattr/getattr)
+    names = [x for x in ast.walk(disp) if isinstance(x, ast.BinOp) and isinstance(x.op, ast.Add) and
+             src(x).replace(" ", "") == "'build'+verb.capitalize()"]
+    txt = names
+    ctx.check(bool(names) and any(isinstance(x, ast.Call) and call_name(x) == "getattr" for x in ast.walk(disp)), "T6-verbs", disp,
               "dispatch: 'build' + verb.capitalize()", "dispatch naming convention")
 
     # (c)
